@@ -29,7 +29,7 @@ pub enum G {
     Fn(u64),
 }
 
-fn run_file(g: G, trees: Vec<Scad>, pre: u64, stack_mb: usize, id: u64) -> (String, Res) {
+pub fn run_file(g: G, trees: Vec<Scad>, pre: u64, stack_mb: usize, id: u64) -> (String, Res) {
     let gt = match &g {
         G::None => "gnone".to_string(),
         G::Fa(a) => format!("gfa {}", tn(*a)),
@@ -121,6 +121,51 @@ fn run_save(tree: Scad, pre: u64, id: u64) -> (String, Res) {
     (req, r)
 }
 
+/// sequences with repeated children: adjacent equal trees, all equal, a-b-a, equal first and last
+/// (a writer that merges, sorts or de-duplicates its children is only visible on these)
+pub fn dup_stream(rng: &mut Rng, n: u64, id: &mut u64, out: &mut Out) {
+    let g = Gen { values: true, huge_ints: false };
+    for i in 0..n {
+        *id += 1;
+        let k = rng.range(2, 6) as usize;
+        let mut trees: Vec<Scad> = (0..k).map(|_| {
+            let d = rng.below(3) as u32;
+            g.tree(rng, d)
+        }).collect();
+        match i % 4 {
+            0 => {
+                let j = rng.below((k - 1) as u64) as usize;
+                trees[j + 1] = trees[j].clone();
+            }
+            1 => {
+                let t = trees[0].clone();
+                for x in trees.iter_mut() {
+                    *x = t.clone();
+                }
+            }
+            2 => {
+                let t = trees[0].clone();
+                trees[k - 1] = t;
+            }
+            _ => {
+                // runs: a a b b
+                for j in (0..k - 1).step_by(2) {
+                    trees[j + 1] = trees[j].clone();
+                }
+            }
+        }
+        let setting = match i % 5 {
+            0 => G::None,
+            1 => G::Fa(g.num(rng)),
+            2 => G::Fs(g.num(rng)),
+            3 => G::FaFs(g.num(rng), g.num(rng)),
+            _ => G::Fn(g.int(rng)),
+        };
+        let (q, r) = run_file(setting, trees, rng.below(4), 8, *id);
+        out.case(q, r);
+    }
+}
+
 pub fn generate(rng: &mut Rng, thorough: bool, out: &mut Out) {
     let g = Gen { values: true, huge_ints: false };
     let n = if thorough { 1500 } else { 150 };
@@ -148,6 +193,7 @@ pub fn generate(rng: &mut Rng, thorough: bool, out: &mut Out) {
         let (q, r) = run_file(setting, trees, rng.below(4), 8, id);
         out.case(q, r);
     }
+    dup_stream(rng, if thorough { 200 } else { 40 }, &mut id, out);
     // deep chains that need the enlarged stack of the saving thread
     let depths: Vec<usize> = if thorough { vec![2000, 20000] } else { vec![2000] };
     for d in depths {
